@@ -751,15 +751,10 @@ def o_c16(ctx):
         lines = base_src.split("\n")
         if "ok" not in base or not base["ok"].get("feature"):
             return None
-        # classify lines through the token listing of the implementation
-        tk = impl.tokens("en", base_src)
-        if "ok" not in tk:
+        # classify lines: the kind under which each line reached the builder
+        kinds = line_kinds(impl, base_src)
+        if kinds is None or len(kinds) != len([x for x in lines]) - (1 if base_src.endswith("\n") or base_src == "" else 0):
             return None
-        kinds = []
-        for row in tk["ok"].split("\n"):
-            if row == "EOF":
-                break
-            kinds.append(row.split(")", 1)[1].split(":", 1)[0])
         structural = {"FeatureLine", "RuleLine", "BackgroundLine", "ScenarioLine", "ExamplesLine", "StepLine", "TagLine", "TableRow"}
         # trailing blanks / extra indentation on one structural line
         idx = [i for i, k in enumerate(kinds) if k in structural]
@@ -801,6 +796,34 @@ def o_c16(ctx):
                     return {"what": "inserting a comment before line %d (%s) makes the document rejected" % (i + 1, kinds[i]), "variant": "\n".join(insc)}
         return None
     return oracle("layout-transformations", srcs, check)
+
+
+def line_kinds(impl, src):
+    class Rec:
+        def __init__(self):
+            self.k = []
+
+        def reset(self):
+            self.k = []
+
+        def start_rule(self, r):
+            pass
+
+        def end_rule(self, r):
+            pass
+
+        def build(self, t):
+            if not t.eof():
+                self.k.append(t.matched_type)
+
+        def get_result(self):
+            return None
+    b = Rec()
+    try:
+        impl.Parser(b).parse(impl.source_arg(src), impl.TokenMatcher("en"))
+    except impl.ParserException:
+        return None
+    return b.k
 
 
 def in_description(kinds, i):
